@@ -54,9 +54,12 @@ ASSUMPTIONS = ["the parsing half of this property is input space; the simulator 
                "draw, the remaining deadline and the peer", "HTTP-dates have 1 s resolution: generated dates are whole-second instants",
                "an infinite numeric retry_after attribute is accepted as a hint (a number >= 0); retry_after_or treats it as absent",
                "sampling, not proof"]
-BUDGETS = {"quick": (12000, 50), "thorough": (900000, 285)}
+BUDGETS = {"quick": (36000, 90), "thorough": (2500000, 285)}
 TOP = 1.0 - 2.0 ** -53
-SHAPES = ["dict", "dict_lower", "dict_upper", "dict_mixed", "pairs", "getter", "response", "attr_str", "headers_and_attr"]
+SHAPES = ["dict", "dict_lower", "dict_upper", "dict_mixed", "pairs", "getter", "response", "attr_str", "headers_and_attr",
+          "dict", "pairs", "getter", "response",   # (weights)
+          "hostile_getter", "hostile_items", "hostile_mapping", "non_iterable", "bad_pairs", "hostile_str", "hostile_response"]
+HOSTILE_SHAPES = {"hostile_getter", "hostile_items", "hostile_mapping", "non_iterable", "bad_pairs", "hostile_str", "hostile_response"}
 GARBAGE = ["soon", "later", "n/a", "--", "abc", "x y z", "tomorrow", "!", "never", "retry", "??", "a-b-c", "zz:zz"]
 
 
@@ -80,6 +83,47 @@ class Getter:
 class Resp:
     def __init__(self, headers):
         self.headers = headers
+
+
+class HostileGetter:
+    def get(self, k, default=None):
+        raise RuntimeError("header backend down")
+
+    def items(self):
+        raise RuntimeError("header backend down")
+
+
+class HostileItems:
+    def get(self, k, default=None):
+        return None
+
+    def items(self):
+        raise KeyError("boom")
+
+
+from collections.abc import Mapping as _Mapping  # noqa: E402
+
+
+class HostileMapping(_Mapping):
+    def __getitem__(self, k):
+        raise ZeroDivisionError("x")
+
+    def __iter__(self):
+        raise ZeroDivisionError("x")
+
+    def __len__(self):
+        return 1
+
+
+class HostileStr:
+    def __str__(self):
+        raise ValueError("no str for you")
+
+
+class HostileResponse:
+    @property
+    def headers(self):
+        raise AttributeError("lazy headers failed")
 
 
 def gen_value(r):
@@ -168,6 +212,22 @@ def build_exc(att, wall_us):
     e = HttpError("http")
     e.status = att["status"]
     shape = att["shape"]
+    if shape in HOSTILE_SHAPES and t != "num_attr":
+        if shape == "hostile_getter":
+            e.headers = HostileGetter()
+        elif shape == "hostile_items":
+            e.headers = HostileItems()
+        elif shape == "hostile_mapping":
+            e.headers = HostileMapping()
+        elif shape == "non_iterable":
+            e.headers = 5
+        elif shape == "bad_pairs":
+            e.headers = [1, "ab", ("Retry-After",), None]
+        elif shape == "hostile_str":
+            e.headers = {"Retry-After": HostileStr()}
+        else:
+            e.response = HostileResponse()
+        return e, ({"kind": "free"} if att["status"] == 429 else {"kind": "not_rate_limit"})
     if t == "num_attr":
         e.retry_after = direct
         if att["status"] == 429:
